@@ -125,7 +125,7 @@ def run(ctx):
     fi = ctx.func(IKESA + '._get_ipsec_configuration')
     G = ctx.sval(fi)
     ps = fi.call_params()
-    ctx.require(len(ps) == 2, 'anchor vanished: _get_ipsec_configuration(payload_tsi, payload_tsr)')
+    ctx.require(len(ps) >= 2 and len(ps) - len(fi.defaults()) <= 2, 'anchor vanished: _get_ipsec_configuration(payload_tsi, payload_tsr)')
     site = ctx.site(fi, fi.node)
     protect = attr(attr(SELF, 'configuration'), 'protect')
     req = {'tsi': attr(('param', ps[0]), 'traffic_selectors'), 'tsr': attr(('param', ps[1]), 'traffic_selectors')}
@@ -225,6 +225,10 @@ def run(ctx):
     # (a decoder that widens or rewrites ports, protocol or addresses makes the containment tests decide about something else)
     from .c05 import check_ts
     check_ts(ctx, 'R1', 'R1')
+
+    # "the policy" a request is narrowed against is this connection's: the loader gives every connection its own list of entries
+    from .c19 import own_protect_list
+    own_protect_list(ctx, 'R1')
 
     # ---------------------------------------------------------------- R2
     rs = ctx.func(IKESA + '._process_create_child_sa_negotiation_res')
